@@ -67,6 +67,26 @@ Theorem C20_replay_does_not_verify :
 Proof. exact unverified_replay. Qed.
 Print Assumptions C20_replay_does_not_verify.
 
+(* a concrete witness (Node/RestoreRefuted.v): after the opening proposal of round 9 a decline in
+   participant 0's name, signed by nobody, lies on the board; the live nodes refuse it writing
+   nothing and keep waiting for confirmations - the node restored from the very same log holds the
+   round as cancelled; without the forged message the two agree *)
+Require Import Node.RestoreRefuted.
+Theorem C20_restore_reaches_live_state_refuted :
+  exists log, restored_state log <> round_state (live_of log) 9%N.
+Proof. exact restore_reaches_live_state_refuted. Qed.
+Print Assumptions C20_restore_reaches_live_state_refuted.
+
+Theorem C20_restore_witness :
+  (exists h, (process_message true 777%Z {| h_st := live_of [Node.Local.ex_prop 9%N]; h_tr := [] |} forged_decline = RErr h) /\ (h_tr h = [])) /\
+  (round_state (live_of the_log) 9%N = Some "state_sig_proposal_await_participants_confirmations"%string /\
+   restored_state the_log = Some "state_sig_proposal_canceled_by_participant"%string) /\
+  (restored_state [Node.Local.ex_prop 9%N] = round_state (live_of [Node.Local.ex_prop 9%N]) 9%N /\
+   restored_state [Node.Local.ex_prop 9%N] <> None).
+Proof.
+  exact (conj live_nodes_refuse_the_forged_decline (conj restored_round_differs_from_live_round without_the_forged_message_they_agree)).
+Qed.
+
 (* ---- the tool that writes the reinit file (client/types GenerateReDKGMessage, Node/GenReDKG.v) ---- *)
 Require Import Node.GenReDKG Node.GenReDKGProofs.
 
